@@ -71,3 +71,71 @@ Proof. vm_compute. repeat split; reflexivity. Qed.
 Example C02_encoded_word_lookalike_refuted :
   exists s, word_encode 113 s = s /\ s = bs "=?utf-8?q?a?=".
 Proof. exists (bs "=?utf-8?q?a?="). vm_compute. split; reflexivity. Qed.
+
+(* ---------------- the whole message ----------------
+   A strict RFC 5322 field scanner (coq/theories/HeaderScan.v: lines end in CRLF, a line starting
+   with SP/TAB continues the previous field, every other line is "name:…" with a printable name
+   without ':' / blank, bare CR or LF is malformed, an empty line ends the section, the text must
+   not stop inside a line) applied to what go-mail renders (coq/theories/Render.v, proved equal to
+   the writer model's output in proofs/RenderProofs.v) finds exactly the expected field names in
+   order — no additional field, no premature end of the header section. *)
+From Verif Require Import MimeTree Render HeaderScan.
+From VerifProofs Require Import HeaderBlockProofs.
+
+(* the top-level header block, for header-safe generic / From / address headers (what go-mail's
+   setters store; keys printable without ':' and blank) and no preformatted headers: the sorted
+   generic keys that have a value, From, the present To / Cc / Reply-To in source-list order *)
+Theorem C02_top_header_block : forall (m : msg) (rest : bytes),
+  hdrs_safe m -> m_preform m = [] ->
+  field_names (top_headers m ++ crlf ++ rest) = Some (top_names m).
+Proof. exact top_header_block. Qed.
+Print Assumptions C02_top_header_block.
+
+(* every part header section multipart.CreatePart writes: exactly the sorted keys, one field per
+   value *)
+Theorem C02_part_section_names : forall (hdrs : list (bytes * list bytes)) (rest : bytes),
+  Forall kv_ok hdrs ->
+  field_names (part_header_lines hdrs ++ crlf ++ rest) = Some (part_names hdrs).
+Proof. exact part_section_names. Qed.
+Print Assumptions C02_part_section_names.
+
+(* the header section of the whole rendered message (top-level block + the outermost entity's own
+   lines, up to the first empty line), for every shape: multipart (Content-Type), single part
+   (Content-Transfer-Encoding, Content-Type), single file (its sorted header keys) *)
+Theorem C02_message_header_fields : forall (z : rmsg) (t : node),
+  hdrs_safe (z_msg z) -> m_preform (z_msg z) = [] -> entity_safe z -> forest_of z = [t] ->
+  field_names (render_pure z) = Some (top_names (z_msg z) ++ entity_names z).
+Proof. exact message_header_fields. Qed.
+Print Assumptions C02_message_header_fields.
+
+(* instance: the hypotheses hold and the names are what one expects; the same message with a raw
+   CRLF in a value (not what the setters store) is refused by the scanner's expectations *)
+Definition c02_msg (subject : bytes) : msg :=
+  mkmsg (bs "UTF-8") 113 [(bs "Subject", [subject]); (bs "X-Empty", [])] [] (Some (bs """A"" <a@x.test>"))
+        [(bs "Cc", [bs "<c@y.test>"; bs "<d@y.test>"]); (bs "To", [bs "<b@y.test>"])]
+        [mkpart (bs "text/plain") [] EncQP [] (mkprod [bs "Hello"] false);
+         mkpart (bs "text/html") [] EncQP [] (mkprod [bs "<p>Hello</p>"] false)] [] [] [] [] [].
+Definition c02_z (subject : bytes) : rmsg :=
+  resolve (bs "Thu, 01 Oct 2026 10:00:00 +0000") (bs "<1@x.test>") [bs "B1B1B1"] (c02_msg subject).
+
+Example C02_message_example :
+  field_names (render_pure (c02_z (bs "a long subject that has to be folded because it does not fit into one line of text"))) =
+    Some [bs "Date"; bs "MIME-Version"; bs "Message-ID"; bs "Subject"; bs "User-Agent"; bs "X-Mailer";
+          bs "From"; bs "To"; bs "Cc"; bs "Content-Type"] /\
+  field_names (render_pure (c02_z (bs "x" ++ crlf ++ bs "X-Injected: 1"))) =
+    Some [bs "Date"; bs "MIME-Version"; bs "Message-ID"; bs "Subject"; bs "X-Injected"; bs "User-Agent"; bs "X-Mailer";
+          bs "From"; bs "To"; bs "Cc"; bs "Content-Type"].
+Proof. vm_compute. split; reflexivity. Qed.
+
+Example C02_message_hypotheses_satisfiable :
+  let z := c02_z (bs "a subject") in
+  hdrs_safe (z_msg z) /\ m_preform (z_msg z) = [] /\ entity_safe z /\ exists t, forest_of z = [t].
+Proof.
+  cbv zeta. split; [|split; [reflexivity|split]].
+  - unfold hdrs_safe. split; [|split].
+    + vm_compute. repeat (constructor; [split; [reflexivity|repeat constructor]|]). constructor.
+    + intros f H. vm_compute in H. inversion H. reflexivity.
+    + vm_compute. repeat constructor.
+  - unfold entity_safe. cbv zeta. repeat split; try (vm_compute; reflexivity); vm_compute; repeat constructor.
+  - eexists. vm_compute. reflexivity.
+Qed.
